@@ -287,17 +287,188 @@ def gen_kernprof_options():
 
 def gen_explicit_tables():
     out = ['/-! Literal tables copied from line_profiler/explicit_profiler.py by tools/extract.py — regenerated on every run. -/',
-           'namespace LPVerif.Generated', '']
+           'namespace LPVerif.Generated', '',
+           '/-- segment of an f-string file name: literal text, `{self.output_prefix}`, `{timestamp}` -/',
+           'inductive Seg | lit (s : String) | pfx | ts | other (s : String)', 'deriving DecidableEq, Repr', '']
     falsy = literal_of('line_profiler/explicit_profiler.py', '_FALSY_STRINGS')
     out.append('/-- explicit_profiler.py: `_FALSY_STRINGS` (sorted) -/')
     out.append('def falsyStrings : List String := [%s]' % ', '.join(lean_str(x) for x in sorted(falsy or [])))
+    out.append('')
+    vals = explicit_init_tables()
+    sc = vals.get('setup_config', {})
+    out.append('/-- `GlobalProfiler.__init__`: setup_config -/')
+    out.append('def environFlags : List String := [%s]' % ', '.join(lean_str(x) for x in sc.get('environ_flags', [])))
+    out.append('def cliFlags : List String := [%s]' % ', '.join(lean_str(x) for x in sc.get('cli_flags', [])))
+    out.append('def defaultOutputPrefix : String := %s' % lean_str(str(vals.get('output_prefix'))))
+    out.append('/-- write_config defaults (key, bool) and show_config defaults (key, int) -/')
+    out.append('def writeConfigDefaults : List (String × Bool) := [%s]' % ', '.join(
+        '(%s, %s)' % (lean_str(k), 'true' if v else 'false') for k, v in vals.get('write_config', {}).items()))
+    out.append('def showConfigDefaults : List (String × Nat) := [%s]' % ', '.join(
+        '(%s, %d)' % (lean_str(k), int(v)) for k, v in vals.get('show_config', {}).items()))
+    out.append('/-- `GlobalProfiler.show`: (write_config key guarding it, file name written; [] = the report on stdout) in source order -/')
+    out.append('def showTable : List (String × List Seg) := [%s]' % ', '.join(
+        '(%s, %s)' % (lean_str(k), v) for k, v in explicit_show_table()))
     out.append('')
     out.append('end LPVerif.Generated')
     return '\n'.join(out) + '\n'
 
 
+
+# ----------------------------------------------------------------------------- GlobalProfiler (C14)
+EXPL = 'line_profiler/explicit_profiler.py'
+
+
+class SelfEmitter:
+    """Methods of GlobalProfiler -> Lean terms over the record `GP` (continuation-passing over statement lists).
+    Control flow (if/else, early return, method calls, attribute stores) is translated structurally; the few
+    library expressions are matched by their exact source text (changed text => unsupported => the build breaks)."""
+    ATTR = {'_profile': 'profile', 'enabled': 'enabled', 'output_prefix': 'output_prefix'}
+    EXPR_TEXT = {
+        "self.setup_config['environ_flags']": 'environFlags',
+        "self.setup_config['cli_flags']": 'cliFlags',
+        "any((os.environ.get(f, '').lower() not in _FALSY_STRINGS for f in environ_flags))": 'envRequested env environ_flags falsyStrings',
+        "any((f in sys.argv for f in cli_flags))": 'cliRequested env cli_flags',
+    }
+    COND_TEXT = {
+        'self.enabled is None': 'self.enabled = none',
+        'not self.enabled': 'self.enabled ≠ some true',
+        'self._profile is None': 'self.profile = none',
+        'output_prefix is not None': 'output_prefix ≠ none',
+        'is_profiling': 'is_profiling = true',
+    }
+    STMT_TEXT = {
+        'atexit.register(self.show)': 'let self := self.atexit_register_show',
+        'self._profile = LineProfiler()': 'let self := self.new_LineProfiler',
+        'self.enable()': 'let self := gen_enable self none',
+        'self.disable()': 'let self := gen_disable self',
+        'self._implicit_setup()': 'let self := gen_implicit_setup env self',
+        'self.output_prefix = output_prefix': 'let self := { self with output_prefix := output_prefix.getD self.output_prefix }',
+        'self.enabled = True': 'let self := { self with enabled := some true }',
+        'self.enabled = False': 'let self := { self with enabled := some false }',
+        'self.enabled = None': 'let self := { self with enabled := none }',
+        'self._profile = profile': 'let self := { self with profile := profile }',
+        'self._profile = None': 'let self := { self with profile := none }',
+    }
+    RET_TEXT = {'return func': '(self, Ret.same)', 'return self._profile(func)': '(self, self.call_profile)'}
+
+    def __init__(self, fallthrough):
+        self.fallthrough = fallthrough
+
+    def stmts(self, body, d):
+        pad = IND * d
+        if not body:
+            return pad + self.fallthrough
+        s, rest = body[0], body[1:]
+        txt = ast.unparse(s)
+        if isinstance(s, ast.Expr) and isinstance(s.value, ast.Constant):
+            return self.stmts(rest, d)
+        if isinstance(s, ast.Pass):
+            return self.stmts(rest, d)
+        if txt in self.STMT_TEXT:
+            return pad + self.STMT_TEXT[txt] + '\n' + self.stmts(rest, d)
+        if txt in self.RET_TEXT:
+            return pad + self.RET_TEXT[txt]
+        if isinstance(s, ast.Assign) and len(s.targets) == 1 and isinstance(s.targets[0], ast.Name):
+            v = ast.unparse(s.value)
+            if v in self.EXPR_TEXT:
+                return pad + 'let %s := %s\n' % (s.targets[0].id, self.EXPR_TEXT[v]) + self.stmts(rest, d)
+        if isinstance(s, ast.AugAssign) and isinstance(s.op, ast.BitOr) and isinstance(s.target, ast.Name):
+            v = ast.unparse(s.value)
+            if v in self.EXPR_TEXT:
+                return pad + 'let %s := %s || (%s)\n' % (s.target.id, s.target.id, self.EXPR_TEXT[v]) + self.stmts(rest, d)
+        if isinstance(s, ast.If):
+            c = ast.unparse(s.test)
+            if c in self.COND_TEXT:
+                return (pad + 'if %s then\n' % self.COND_TEXT[c] + self.stmts(s.body + rest, d + 1) + '\n' + pad + 'else\n'
+                        + self.stmts(s.orelse + rest, d + 1))
+        raise Unsupported(txt)
+
+
+def emit_method(tree, cls, name, sig, params, fallthrough):
+    fn = find_func(tree, name, cls)
+    head = '-- generated from %s:%s `%s.%s` -- do not edit\n' % (EXPL, fn.lineno if fn else '?', cls, name)
+    if fn is None:
+        return head + '%s := by exact method_not_found_in_source\n' % sig
+    got = [a.arg for a in fn.args.args]
+    if got != params:
+        return head + '%s := by exact unexpected_signature_%s\n' % (sig, '_'.join(got))
+    try:
+        body = SelfEmitter(fallthrough).stmts(fn.body, 1)
+    except Unsupported as e:
+        return head + '-- unsupported construct: %s\n%s := by exact unsupported_construct_in_source\n' % (str(e).replace('\n', ' ')[:300], sig)
+    return head + sig + ' :=\n' + body + '\n'
+
+
+def gen_explicit_methods():
+    tree = ast.parse(src_of(EXPL))
+    out = ['import LPVerif.Model.Explicit', '/-! Transliteration of the GlobalProfiler methods emitted by tools/extract.py from the tree — regenerated on every run. -/',
+           'namespace LPVerif.Generated', 'open LPVerif.Explicit', '']
+    out.append(emit_method(tree, 'GlobalProfiler', '_kernprof_overwrite', 'def gen_kernprof_overwrite (self : GP) (profile : Option ProfRef) : GP',
+                           ['self', 'profile'], 'self'))
+    out.append(emit_method(tree, 'GlobalProfiler', 'disable', 'def gen_disable (self : GP) : GP', ['self'], 'self'))
+    out.append(emit_method(tree, 'GlobalProfiler', 'enable', 'def gen_enable (self : GP) (output_prefix : Option String) : GP',
+                           ['self', 'output_prefix'], 'self'))
+    out.append(emit_method(tree, 'GlobalProfiler', '_implicit_setup', 'def gen_implicit_setup (env : Env) (self : GP) : GP', ['self'], 'self'))
+    out.append(emit_method(tree, 'GlobalProfiler', '__call__', 'def gen_call (env : Env) (self : GP) : GP × Ret', ['self', 'func'],
+                           'by exact call_falls_off_the_end'))
+    out.append('end LPVerif.Generated')
+    return '\n'.join(out) + '\n'
+
+
+def explicit_init_tables():
+    tree = ast.parse(src_of(EXPL))
+    fn = find_func(tree, '__init__', 'GlobalProfiler')
+    vals = {}
+    for node in ast.walk(fn):
+        if isinstance(node, ast.Assign) and len(node.targets) == 1 and isinstance(node.targets[0], ast.Attribute):
+            try:
+                vals[node.targets[0].attr] = ast.literal_eval(node.value)
+            except Exception:
+                pass
+    return vals
+
+
+def explicit_show_table():
+    """rows (write_config key, file-name pattern or <stdout>) in source order, from the `if <flag>:` structure of show()"""
+    tree = ast.parse(src_of(EXPL))
+    fn = find_func(tree, 'show', 'GlobalProfiler')
+    var2key = {}
+    for node in ast.walk(fn):
+        if (isinstance(node, ast.Assign) and len(node.targets) == 1 and isinstance(node.targets[0], ast.Name)
+                and isinstance(node.value, ast.Subscript) and ast.unparse(node.value.value) == 'self.write_config'):
+            var2key[node.targets[0].id] = ast.literal_eval(node.value.slice)
+    rows = []
+
+    def walk(stmts, key):
+        for st in stmts:
+            if isinstance(st, ast.If):
+                k = var2key.get(st.test.id) if isinstance(st.test, ast.Name) else None
+                walk(st.body, k if k is not None else key)
+                walk(st.orelse, key)
+                continue
+            if key is None:
+                continue
+            for node in ast.walk(st):
+                if isinstance(node, ast.Call) and ast.unparse(node.func) == 'self._profile.print_stats' \
+                        and not any(k.arg == 'stream' for k in node.keywords):
+                    rows.append((key, '[]'))
+                if isinstance(node, ast.Call) and ast.unparse(node.func) == 'pathlib.Path' and node.args \
+                        and isinstance(node.args[0], ast.JoinedStr):
+                    segs = []
+                    for v in node.args[0].values:
+                        if isinstance(v, ast.FormattedValue):
+                            t = ast.unparse(v.value)
+                            segs.append('.pfx' if t == 'self.output_prefix' else '.ts' if t == 'timestamp' else '.other ' + lean_str(t))
+                        else:
+                            segs.append('.lit ' + lean_str(v.value))
+                    rows.append((key, '[' + ', '.join(segs) + ']'))
+    walk(fn.body, None)
+    return rows
+
+
 GENERATORS = [('PreParse.lean', gen_pre_parse), ('RelImport.lean', gen_get_module),
-              ('KernprofOptions.lean', gen_kernprof_options), ('ExplicitTables.lean', gen_explicit_tables)]
+              ('KernprofOptions.lean', gen_kernprof_options), ('ExplicitTables.lean', gen_explicit_tables),
+              ('Explicit.lean', gen_explicit_methods)]
 
 
 def regenerate(log=None):
